@@ -13,7 +13,6 @@ import scipy.sparse as sps
 from fractions import Fraction
 from harness.common import frac, err_kind, deep_compare
 
-DISABLED = True
 PID = "C35"
 THEOREMS = [
     "PorepyVerif.C35.expand_index_pointers_eq_ranges",
@@ -27,6 +26,8 @@ THEOREMS = [
     "PorepyVerif.C35.slice_eq_dense_index",
     "PorepyVerif.C35.whereTrue_spec",
     "PorepyVerif.C35.slice_indices_eq",
+    "PorepyVerif.C35.slice_indices_array_ind",
+    "PorepyVerif.C35.slice_indices_int_eq",
     "PorepyVerif.C35.zero_rows_eq_dense",
     "PorepyVerif.C35.merge_eq_row_replacement",
     "PorepyVerif.C35.replaceRows_spec",
@@ -36,6 +37,7 @@ THEOREMS = [
     "PorepyVerif.C35.from_dense_blocks_size_error",
     "PorepyVerif.C35.block_diag_matrix_eq_block_diag",
     "PorepyVerif.C35.kron_identity_dense",
+    "PorepyVerif.C35.kron_one_dense",
     "PorepyVerif.C35.expand_indices_nd_eq",
     "PorepyVerif.C35.expand_indices_add_increment_eq",
     "PorepyVerif.C35.block_diag_index_square",
@@ -44,8 +46,8 @@ THEOREMS = [
 LEAN_MODULES = ["PorepyVerif.C35.Props"]
 AUDIT = "PorepyVerif/C35/Audit.lean"
 DRIVER = "PorepyVerif/C35/Driver.lean"
-N = {"quick": 2500, "thorough": 40000}
-RULE = ("one call of one utility per case (function drawn from 27 kinds, see input_distribution); matrices: csr or csc, 0-6 lines x 0-5 "
+N = {"quick": 2500, "thorough": 60000}
+RULE = ("one call of one utility per case (function drawn from 23 kinds, see input_distribution); matrices: csr or csc, 0-6 lines x 0-5 "
         "minor entries, 30% empty lines, styles canonical / unsorted indices / duplicate indices / full / nearly empty, 15% explicit "
         "zeros, values small dyadic rationals (binary64 exact); line sets: sorted, unsorted, repeated (where the code allows it), empty, "
         "boolean masks, scalars; counts with zeros; blocks of size zero; ~6% documented-error inputs (wrong format, shape mismatch, "
@@ -59,7 +61,26 @@ TRUSTED = [
     "the format-dependent shape checks/updates of the code are exercised by correspondence and oracle only",
     "slice assignment i[a:b] = ... over consecutive slices in block_diag_index(m) is modelled as concatenation",
 ]
-EXPLANATION = ""
+EXPLANATION = (
+    "FULL for the row-wise reading. Model = Csr{nrows,ncols,indptr,indices,data} with toDense (duplicates summed, unsorted indices allowed) and one function per "
+    "utility written on the arrays the way the code is (cumsum / scatter / fancy indexing / np.insert / np.repeat); every theorem holds for ALL inputs satisfying the "
+    "decidable predicate Csr.WF (evaluated by the driver on every generated matrix). PROVED (toDense (f A ..) = dense reference, plus well-formedness of the result): "
+    "expand_index_pointers (= concatenated ranges, with broadcasting and the ValueError), rldecode (= np.repeat), rlencode (= maximal runs) and the round trip "
+    "rldecode(rlencode(A)) = A, zero_rows/zero_columns (dense zeroing, structure untouched), slice_sparse_matrix (unsorted / repeated / empty index lists), "
+    "slice_indices (both outputs, array / scalar form), merge_matrices (= A[lines,:] = B for every duplicate-free line list, sorted or not, incl. the argsort path), "
+    "stack_mat, stack_diag (repaired behaviour, see the known finding), cs?_matrix_from_sparse_blocks (any number of blocks, zero-size blocks), "
+    "cs?_matrix_from_dense_blocks (incl. block_size 1 and num_blocks 0, and the ValueError), block_diag_matrix, block_diag_index(m) and block_diag_index(m, n) "
+    "(= coordinates of the block-diagonal entries, zero sizes allowed), expand_indices_nd (F and C order), expand_indices_add_increment, and the Kronecker reference "
+    "kron(A, I_nd) in compressed form (= dense Kronecker product; nd = 1 is the identity). "
+    "CORRESPONDENCE ONLY (model + differential test + oracle, no theorem): the csc side of every function (the model receives the transposed reading; the format-specific "
+    "shape checks / shape updates and the ValueError guards of zero_*, merge_matrices, stack_* live in the driver), boolean-mask front ends (np.where + the proved array "
+    "version; only whereTrue's range is proved), sparse_kronecker_product itself (pure scipy, compared with the proved reference on dense output), "
+    "optimized_compressed_storage (format rule), the IndexError corner of rldecode/block_diag_index for count vectors longer than the values. "
+    "ORACLE ONLY (no model): copy, sparse_array_to_row_col_data, sparse_dia_from_sparse_blocks. "
+    "Correspondence compares the raw arrays (indptr, indices, data) AND the dense reading exactly, index outputs exactly, exceptions by class. "
+    "Known finding (open): stack_diag returns A unchanged when B has no lines but a non-zero minor dimension (shape differs from the dense block diagonal); "
+    "fixes/C35-stack-diag-empty-B.diff. Regression inputs of the two defects already repaired in /repo (rldecode zero counts, merge_matrices unsorted lines) are in corpus/C35."
+)
 ASSUMPTIONS = [
     "matrix values are exact in binary64 (dyadic generator) and no arithmetic other than copying/zeroing/summing duplicates happens, so rational model and float code agree exactly",
     "line indices passed to the utilities are non-negative and in range (numpy's negative-index wrap-around is outside the model)",
